@@ -16,7 +16,7 @@ def isCTL (b : UInt8) : Bool := b < 0x20 || b == 0x7f
 
 def model (args : List String) : Option String :=
   match args with
-  | ["query", h] => do
+  | ["query", h] | ["queryL", h] => do
     let raw ← Bytes.ofField h
     let q := cutFragment raw
     -- url.ParseRequestURI (a parameter of the model) rejects control bytes anywhere in the URI
